@@ -14,6 +14,7 @@ import Qentem.Proofs.NumToStrFixedRound
 import Qentem.Proofs.NumToStrDefaultGe1
 import Qentem.Proofs.NumToStrDefaultFrac
 import Qentem.Proofs.NumToStrFixedLt1
+import Qentem.Proofs.NumToStrDefaultLt1
 /-! C10 — number to text equals the reference formatting for every value and precision.
 
 Model: `Qentem.NumToStr` (transcription of `Digit.hpp`), reference: `Qentem.FmtSpec` (ISO C
@@ -394,6 +395,37 @@ example : realToString f64 [] 0x3F202E7EF70994DD 5 fmtFixed = .ok [48, 46, 48, 4
 example : realToString f64 [] 0x3FEEB851EB851EB8 1 fmtFixed = .ok [49, 46, 48] := by decide +kernel
 example : realToString f64 [] 0x3FA47AE147AE147B 1 fmtFixed = .ok [48, 46, 48] := by decide +kernel
 example : realToString f64 [] 0x0000000000000001 3 fmtSemiFixed = .ok [48] := by decide +kernel
+
+/-- `format_eq_spec_double`: **the double half of `FormatEqSpec`, proved in full**: for every one of the 2^64 bit
+patterns (indeed for every natural number read as a pattern), every precision ≤ 40, each of the three formats and
+any prior stream contents, `realToString` appends exactly the reference text (`%.{p}g`, `%.{p}f`, `%.{p}f` stripped;
+`inf`, `-inf`, `nan`) and raises no fault (no out-of-range access, no size wrap, no BigInt overflow).
+The proof goes through `digits_exact_or_sticky` (the BigInt pipeline yields the exact decimal expansion cut at a
+known place plus a sticky flag), `realFinite_reduce` (model = string formatter applied to that digit run), and the
+string-level lemmas for `roundStringNumber`, `formatStringNumberDefault` and `formatStringNumberFixed`. -/
+theorem format_eq_spec_double (pre : List Nat) (bits p f : Nat) (hp : p ≤ 40) (hf : f ≤ 2) :
+    realToString f64 pre bits p f = .ok (pre ++ FmtSpec.format64 bits p (specFmt f)) := by
+  have h3 : f = 0 ∨ f = 1 ∨ f = 2 := by omega
+  rcases h3 with rfl | h12
+  · by_cases hs : Special64 bits
+    · exact special_values.1 pre bits p 0 hs (by omega)
+    · unfold Special64 at hs
+      have hfin : (bits / 2 ^ 52) % 2 ^ 11 ≠ 2 ^ 11 - 1 := fun h => hs (Or.inl h)
+      have hnz : (bits / 2 ^ 52) % 2 ^ 11 ≠ 0 ∨ bits % 2 ^ 52 ≠ 0 := by
+        by_contra hc
+        simp only [not_or, ne_eq, not_not] at hc
+        exact hs (Or.inr hc)
+      exact Qentem.Proofs.NumToStr.default_finite_64 pre bits p hp hfin hnz
+  · exact format_eq_spec_fixed_all pre bits p f h12 hp
+
+/-- tests (kernel evaluation): 0.0001 at 6 digits → 0.0001; 0.00001 → 1e-05; 0.00099999999 at 3 → 0.001 (carry,
+four zeros kept); 0.000099999999 at 3 → 0.0001; 0.0000099999 at 2 → 1e-05; smallest subnormal at 17 digits -/
+example : realToString f64 [] 0x3F1A36E2EB1C432D 6 fmtDefault = .ok [48, 46, 48, 48, 48, 49] := by decide +kernel
+example : realToString f64 [] 0x3EE4F8B588E368F1 6 fmtDefault = .ok [49, 101, 45, 48, 53] := by decide +kernel
+example : realToString f64 [] 0x3F50624DD031FA00 3 fmtDefault = .ok [48, 46, 48, 48, 49] := by decide +kernel
+example : realToString f64 [] 0x3EE4F8A7CA737C05 2 fmtDefault = .ok [49, 101, 45, 48, 53] := by decide +kernel
+example : realToString f64 [] 0x0000000000000001 17 fmtDefault =
+    .ok [52, 46, 57, 52, 48, 54, 53, 54, 52, 53, 56, 52, 49, 50, 52, 54, 53, 52, 101, 45, 51, 50, 52] := by decide +kernel
 
 /-- `format_eq_spec_partial`: `FormatEqSpec` restricted to the special classes.  The rest — every
 finite non-zero value — is open; see `notes/design-numtostr.md`. -/
